@@ -257,6 +257,32 @@ def batch_scalar_operands(ctx):
                    scope=f"{len(data)} array dtypes x {len(scalars)} scalars x {len(ops)} operators x 2 sides")
 
 
+def _own_near_misses():
+    """index lambdas with a binding that is no operand but decides what the bindings broadcast to: as a NumPy
+    operation on the OPERANDS the result would not have the index lambda's shape"""
+    import pymbolic.primitives as prim
+    import pytato as pt
+    from constantdict import constantdict
+    from pytato.array import IndexLambda, _get_default_axes
+    v = prim.Variable
+
+    def mk(expr, shape, binds, dt="float64"):
+        return IndexLambda(expr=expr, shape=shape, dtype=np.dtype(dt), bindings=constantdict(binds),
+                           axes=_get_default_axes(len(shape)), var_to_reduction_descr=constantdict(),
+                           tags=frozenset(), non_equality_tags=frozenset())
+    small = pt.make_placeholder("w1", (4,), "float64")
+    big = pt.make_placeholder("w2", (3, 4), "float64")
+    sub = prim.Subscript(v("_in0"), (v("_1"),))
+    binds = {"_in0": small, "_in1": big}
+    return [
+        ("unused-binding-decides-shape:binary", mk(sub + 2, (3, 4), binds)),
+        ("unused-binding-decides-shape:binary-same-operand", mk(sub * sub, (3, 4), binds)),
+        ("unused-binding-decides-shape:call", mk(v("pytato.c99.sin")(sub), (3, 4), binds)),
+        ("unused-binding-decides-shape:where", mk(prim.If(prim.Comparison(sub, ">", 0), sub, 2), (3, 4), binds)),
+        ("unused-binding-decides-shape:zeros-like", mk(v("pytato.zero")(sub), (3, 4), binds)),
+    ]
+
+
 def batch_near_misses(ctx):
     """hand-built index lambdas that merely resemble a high-level operation (C19's near-misses, incl. what
     lowering produces): the target must refuse them or compute exactly what the index lambda denotes"""
@@ -266,7 +292,7 @@ def batch_near_misses(ctx):
     from pytato.array import Placeholder
     rng = np.random.default_rng(ctx.seed + 141)
     cases = dis = refused = 0
-    for label, il in c19.near_misses(ctx):
+    for label, il in list(c19.near_misses(ctx)) + _own_near_misses():
         cases += 1
         inp = {n.name: c19._data(rng, tuple(n.shape), n.dtype) for n in walk(il) if isinstance(n, Placeholder)}
         try:
@@ -290,7 +316,14 @@ def batch_near_misses(ctx):
             ctx.violation(f"pytarget:near-miss:runtime:{type(e).__name__}",
                           f"{label} ({il.expr}): the generated code fails: {e}", {"label": label, "source": bp.program})
             continue
-        if got.shape != truth.shape or not close(got, truth, single=False, exact=False):
+        if got.shape != truth.shape:
+            dis += 1
+            ctx.violation("pytarget:near-miss:shape-mismatch",
+                          f"{label}: the index lambda {il.expr} of shape {tuple(il.shape)} is emitted as code whose "
+                          f"result has shape {got.shape} (`{bp.program.strip().splitlines()[-2].strip()}`)",
+                          {"label": label, "expr": str(il.expr), "source": bp.program,
+                           "observed": list(got.shape), "expected": list(truth.shape)})
+        elif not close(got, truth, single=False, exact=False):
             dis += 1
             ctx.violation("pytarget:near-miss:value-mismatch",
                           f"{label}: the index lambda {il.expr} is emitted as code that computes something else",
@@ -415,7 +448,7 @@ def _text_cases(ctx):
             yield "subscript:" + fl, mk()
         except Exception:   # noqa: BLE001
             continue
-    for label, il in c19.near_misses(ctx):
+    for label, il in list(c19.near_misses(ctx)) + _own_near_misses():
         yield "near-miss:" + label, il
     with np.errstate(all="ignore"):
         for c in apitable.cases(ctx.seed, ctx.thorough):
